@@ -1724,6 +1724,167 @@ func c09Divs(c *Ctx) error {
 	return nil
 }
 
+// c09LitDivs: a division/modulo with a LITERAL operand: the literal lives in a
+// 32-bit (or wider) container while the variable and the result are narrower or
+// wider, so the divider gets operands and results of different widths.  The
+// Yao long divider zero-pads and truncates; the GMW Goldschmidt divider must
+// compute the same function.  Keys:
+//   c09:prog:division:gmw:result-narrower-than-operand-container:<tag>   GMW result is 0 on every input (result wires never driven)
+//   c09:prog:division:gmw:operands-of-different-widths:compile-panic:<tag>
+//   known-divide-by-zero-difference / known-divider-inaccuracy (F14/F13) at the container width
+//   c09:prog:division:literal-operand:output-differs:<tag>               anything else
+func c09LitDivs(c *Ctx) {
+	type lit struct {
+		signed bool
+		w      int
+		expr   string // over the variable a
+		form   string
+	}
+	progs := []lit{
+		{false, 8, "100 % a", "lit-dividend"}, {true, 8, "a / 3", "lit-divisor"},
+		{false, 8, "a / 3", "lit-divisor"}, {true, 8, "100 % a", "lit-dividend"},
+		{false, 13, "1000 / a", "lit-dividend"}, {false, 13, "a % 7", "lit-divisor"},
+		{true, 13, "a / 5", "lit-divisor"},
+		{false, 33, "a % 255", "lit-divisor"}, {false, 33, "a / 3", "lit-divisor"},
+		{true, 33, "a % 255", "lit-divisor"},
+		{false, 40, "a % 1000", "lit-divisor"}, {false, 40, "100000 / a", "lit-dividend"},
+		{true, 40, "a / 7", "lit-divisor"},
+	}
+	r := c.rng.Fork()
+	cfgs := []c09Cfg{{false, 0, utils.TargetYao}, {true, 0, utils.TargetYao}, {false, 0, utils.TargetGMW}, {true, 0, utils.TargetGMW}}
+	devnull, _ := os.OpenFile(os.DevNull, os.O_WRONLY, 0)
+	saved := os.Stdout
+	if devnull != nil {
+		os.Stdout = devnull
+		defer func() { os.Stdout = saved; devnull.Close() }()
+	}
+	for _, p := range progs {
+		ty := fmt.Sprintf("uint%d", p.w)
+		tag := fmt.Sprintf("uw%d:%s", p.w, p.form)
+		if p.signed {
+			ty = fmt.Sprintf("int%d", p.w)
+			tag = fmt.Sprintf("iw%d:%s", p.w, p.form)
+		}
+		src := fmt.Sprintf("package main\nfunc main(a %s) %s {\n    return %s\n}\n", ty, ty, p.expr)
+		prog := c09Prog{Name: "litdiv:" + tag + ":" + p.expr, Src: src}
+		c.Hist("litdiv:" + tag)
+		base, berr := c09CompileProg(prog, cfgs[0])
+		rp0 := c09DivReplay{Seed: c.Seed, Source: src, Config: cfgs[0].String()}
+		if berr != "" {
+			rp0.Error = berr
+			c.Fail("c09:prog:division:literal-operand:does-not-compile:"+tag, "a division with a literal operand does not compile for Yao", rp0)
+			continue
+		}
+		var xs [][]bool
+		if p.w <= 8 || (p.w <= 16 && c.Thorough()) {
+			for v := 0; v < 1<<uint(p.w); v++ {
+				x := make([]bool, p.w)
+				for b := 0; b < p.w; b++ {
+					x[b] = v>>uint(b)&1 == 1
+				}
+				xs = append(xs, x)
+			}
+		} else {
+			for k := 0; k < 56; k++ {
+				x := make([]bool, p.w)
+				for b := range x {
+					switch {
+					case k < 20:
+						x[b] = uint64(k)>>uint(b)&1 == 1 && b < 8
+					case k < 30:
+						x[b] = b >= p.w-3 || r.Bool()
+					default:
+						x[b] = r.Bool()
+					}
+				}
+				xs = append(xs, x)
+			}
+		}
+		evalStr := func(circ *circuit.Circuit, x []bool) (string, string) {
+			out := ""
+			msg := c09Try(func() {
+				res, err := circ.Compute(SplitInputs(circ, x))
+				if err != nil {
+					panic(err)
+				}
+				out = bitsString(JoinOutputs(circ, res))
+			})
+			return out, msg
+		}
+		want := make([]string, len(xs))
+		for xi, x := range xs {
+			want[xi], _ = evalStr(base, x)
+		}
+		c.Eval(prog.Name+"|"+cfgs[0].String(), true)
+		for _, k := range cfgs[1:] {
+			ckey := fmt.Sprintf("prune=%v:%s", k.prune, k.tgt)
+			rp := c09DivReplay{Seed: c.Seed, Source: src, Config: k.String(), Vectors: len(xs)}
+			circ, e := c09CompileProg(prog, k)
+			c.Eval(prog.Name+"|"+k.String(), true)
+			if e != "" {
+				rp.Error = e
+				key := "c09:prog:division:literal-operand:does-not-compile:" + tag + ":" + ckey
+				if k.tgt == utils.TargetGMW && strings.HasPrefix(e, "panic:") {
+					key = "c09:prog:division:gmw:operands-of-different-widths:compile-panic:" + tag
+				}
+				c.Fail(key, "a division with a literal operand (operands of different widths) compiles for Yao and not under this configuration", rp)
+				continue
+			}
+			nfail, nzero, allZero := 0, 0, true
+			var first, firstNZ int = -1, -1
+			var got []string
+			for xi, x := range xs {
+				g, _ := evalStr(circ, x)
+				got = append(got, g)
+				if strings.Contains(g, "1") {
+					allZero = false
+				}
+				if g != want[xi] {
+					nfail++
+					isDivZero := p.form == "lit-dividend" && !strings.Contains(bitsString(x), "1")
+					if isDivZero {
+						nzero++
+					} else if firstNZ < 0 {
+						firstNZ = xi
+					}
+					if first < 0 {
+						first = xi
+					}
+				}
+			}
+			if nfail == 0 {
+				continue
+			}
+			rp.Failing = nfail
+			if k.tgt == utils.TargetGMW && allZero {
+				xi := firstNZ
+				if xi < 0 {
+					xi = first
+				}
+				rp.Inputs, rp.Got, rp.Baseline = bitsString(xs[xi]), got[xi], want[xi]
+				rp.A = fmt.Sprint(c09BitsToUint(xs[xi]))
+				c.Fail("c09:prog:division:gmw:result-narrower-than-operand-container:"+tag,
+					"the GMW circuit of a division with a literal operand returns 0 for every input: the divider's result wires are never driven when the result is narrower than the operands' container", rp)
+				continue
+			}
+			if nzero > 0 && k.tgt == utils.TargetGMW {
+				rz := rp
+				rz.Failing = nzero
+				rz.Inputs, rz.Got, rz.Baseline = bitsString(xs[0]), got[0], want[0]
+				c.Fail(fmt.Sprintf("c09:prog:division:known-divide-by-zero-difference:%s:Yao-vs-GMW", strings.SplitN(tag, ":", 2)[0]),
+					"division by zero (literal dividend, variable 0): the GMW and the Yao divider return different values", rz)
+			}
+			if firstNZ >= 0 {
+				rp.Failing = nfail - nzero
+				rp.Inputs, rp.Got, rp.Baseline = bitsString(xs[firstNZ]), got[firstNZ], want[firstNZ]
+				rp.A = fmt.Sprint(c09BitsToUint(xs[firstNZ]))
+				c.Fail("c09:prog:division:literal-operand:output-differs:"+tag+":"+ckey,
+					"a division with a literal operand computes different outputs under two configurations", rp)
+			}
+		}
+	}
+}
+
 func indexOf(l []int, v int) int {
 	for i, x := range l {
 		if x == v {
@@ -1746,6 +1907,7 @@ func runC09(c *Ctx) error {
 	if err := c09Divs(c); err != nil {
 		return err
 	}
+	c09LitDivs(c)
 	t3 := time.Now()
 	err := c09Progs(c)
 	c.Note("graphs %.1fs, deep chains %.1fs, divisions %.1fs, programs %.1fs", t1.Sub(t0).Seconds(), t2.Sub(t1).Seconds(), t3.Sub(t2).Seconds(), time.Since(t3).Seconds())
